@@ -132,10 +132,13 @@ def gen(r, tier):
 
 
 def run(tier, r):
+    oc.reset_hangs()
     ncases = 1100 if tier == "quick" else 4500
     vs, stats, samples, keys = [], {}, [], set()
     nontrivial = explored = 0
     for i in range(ncases):
+        if oc.too_many_hangs(stats):
+            break
         case = gen(r, tier)
         v, info = oc.safe(check_case, PROP)(case)
         vs += v
